@@ -1,11 +1,11 @@
 package checks
 
 import (
-	"os"
 	"fmt"
 	"go/ast"
 	"go/token"
 	"go/types"
+	"os"
 	"sort"
 	"strings"
 
@@ -185,16 +185,16 @@ func (s *c07State) equal(o *c07State) bool {
 }
 
 type c07Func struct {
-	c        *core.Ctx
-	p        *packages.Package
-	info     *types.Info
-	fd       *ast.FuncDecl
-	name     string
-	evalFns  map[types.Object]bool // objective parameters (function typed or with an evaluation method)
-	hooks    map[types.Object]bool // hook parameters
-	cons     types.Object          // constraints parameter
-	points   map[types.Object]bool
-	epsilon  map[types.Object]bool
+	c         *core.Ctx
+	p         *packages.Package
+	info      *types.Info
+	fd        *ast.FuncDecl
+	name      string
+	evalFns   map[types.Object]bool // objective parameters (function typed or with an evaluation method)
+	hooks     map[types.Object]bool // hook parameters
+	cons      types.Object          // constraints parameter
+	points    map[types.Object]bool
+	epsilon   map[types.Object]bool
 	copyLoops map[ast.Node]*ast.ForStmt
 }
 
@@ -705,6 +705,7 @@ func checkC07(c *core.Ctx) error {
 	checkSecantEquation(c)
 	checkQuadraticMin(c)
 	checkCallbackState(c)
+	checkArmijoBeforeAcceptance(c)
 	nfun := 0
 	for _, p := range c.LibPkgs() {
 		if !strings.Contains(p.PkgPath, "/algorithm/") {
